@@ -1,13 +1,46 @@
 /-
-  C02 — map-reduce over a chunked array (blocks reindexed to the expected groups, `_simple_combine`, tree reduction
-  with any `split_every`) = the eager result = the specification; tie to the live `_initialize_aggregation` table.
+  C02 — chunked = eager = specification, for every strategy / reindex mode / chunking:
+
+    §1  map-reduce, blocks reindexed to the expected groups (`reindex=True`), `_simple_combine`, any `split_every`
+        (+ the tie to the live `_initialize_aggregation` table)
+    §2  map-reduce, reindexing at combine time (`reindex=False`)
+    §3  `method="cohorts"`, ANY sound cohort structure
+    §4  `method="blockwise"` (when every label lies within one block)
+    §5  map-reduce with `_grouped_combine` (the plan for `nanfirst` / `nanlast` on non-float data)
+    §6  the hypotheses are necessary (counterexamples; several are defects of the modelled library)
+
   Property theorems only (helper lemmas live in FloxProofs).
+
+  Vocabulary used in the statements (all defined in FloxProofs, all decidable on concrete data):
+    `codeKeys codes`        the integer codes handed to the pipeline after factorisation (`-1` = dropped element)
+    `CodesOK codes n`       every code lies in `-1 .. n-1`
+    `specResult k R codes vals n`
+                            `Spec.reduce k R.minCount R.userFill codes vals n`, with `none` read as `ValueError`
+    `HAbsent R ms`          `R.minCount ≥ 1 ∨ ms ≠ []`   (an absent requested label is filled through the count mask only)
+    `HAllNaN R s`           nanmax/nanmin/nanfirst/nanlast/nanmean/nanvar: `R.minCount ≥ 1 ∨ R.npFill = NaN`
+    `HMinMax R s`           nanmax/nanmin: `R.minCount ≥ 1` (as the registry forces)
+    `HDropped R n codes vals`
+                            with a count mask and NO fill, the dropped elements (code `-1`) have `≥ min_count` valid
+                            values, and an empty array requests at least one label
+    `CohortsSound chunks codes n cs`, `HCohortFill c R n cs`   see §3
+    `BW.EachLabelInOneBlock chunks codes`, `BW.HDropped`, `BW.HSomeLabel`   see §4
 -/
 import FloxProofs.EndToEnd
 import FloxProofs.TableShape
 import FloxProofs.EndToEndExamples
+import FloxProofs.EndToEndSparse
+import FloxProofs.EndToEndSparseExamples
+import FloxProofs.Cohorts
+import FloxProofs.CohortsExamples
+import FloxProofs.Blockwise
+import FloxProofs.BlockwiseFlox
+import FloxProofs.BlockwiseExamples
+import FloxProofs.Grouped
+import FloxProofs.GroupedExamples
 
 namespace Flox.C02
+
+/-! ## §1 map-reduce with reindexing at the block stage (`reindex=True`) -/
 
 /-- **Map-reduce = eager.**  For a resolved blueprint with a `Shape` (simple-combine reductions), the numpy_groupies
     engine, integer codes in `-1..n-1`, and ANY chunking `chunks` (non-empty, covering the array) and ANY
@@ -154,5 +187,374 @@ example :
         [Val.nan]
       ≠ runKnown (E2E.mkCall E2E.Rnanmax0 .npg 1 2) .eager true [1] ([0].map fun (i : Int) => (some (i : Rat) : Key))
         [Val.nan] := by decide +kernel
+
+/-! ## §2 map-reduce with reindexing at combine time (`reindex=False`) -/
+
+/-- **`reindex=False` map-reduce = specification.**  Blocks carry only the groups they contain (the dropped code `-1`
+    included), every `_simple_combine` reindexes its inputs to the union of their groups with the intermediate fills,
+    `_finalize_results` reindexes to the requested labels with the user fill.  For every chunking (empty blocks, no
+    block at all included) and every `split_every` the result is `Spec.reduce` (`ValueError` where it is `none`).
+
+    Compared with §1, `H_absent` is NOT needed (an absent requested label gets the user's fill – or raises when there
+    is none – exactly as the specification says).  Narrower than the property:
+    * `H_dropped`: with `min_count ≥ 1` and `fill_value=None`, flox raises as soon as the group `-1` of the DROPPED
+      elements has fewer than `min_count` valid values although no requested label needs a fill – a defect of the
+      library, see `H_dropped_counterexample`.
+    * `H_minmax` as in §1 (`H_minmax_counterexample_sparse`). -/
+theorem mapreduce_sparse_eq_spec (R : Resolved) (s : Shape) (c : Call) (n : Nat) (floatData : Bool)
+    (chunks : List Nat) (codes : List Int) (vals : List Val)
+    (hR : c.R = R) (heng : c.eng = .npg) (hn : c.ngroups = n) (hknown : c.knownLabels = true)
+    (hshape : R.shape? = some s) (hcodes : CodesOK codes n) (hlen : codes.length = vals.length)
+    (H_dropped : HDropped R n codes vals) (H_minmax : HMinMax R s)
+    (hsum : chunks.sum = codes.length)
+    (hcombine : useGroupedCombine c floatData = false) :
+    runKnown c (.mapreduce false) floatData chunks (codeKeys codes) vals = specResult s.kernel R codes vals n :=
+  Flox.mapreduce_sparse_eq_spec R s c n floatData chunks codes vals hR heng hn hknown hshape hcodes hlen H_dropped
+    H_minmax hsum hcombine
+
+/-- the same with flox's own engine -/
+theorem mapreduce_sparse_eq_spec_flox (R : Resolved) (s : Shape) (c : Call) (n : Nat) (floatData : Bool)
+    (chunks : List Nat) (codes : List Int) (vals : List Val)
+    (hR : c.R = R) (heng : c.eng = .flox) (hn : c.ngroups = n) (hknown : c.knownLabels = true)
+    (hshape : R.shape? = some s) (hcodes : CodesOK codes n) (hlen : codes.length = vals.length)
+    (H_dropped : HDropped R n codes vals) (H_minmax : HMinMax R s)
+    (hsum : chunks.sum = codes.length)
+    (hcombine : useGroupedCombine c floatData = false) :
+    runKnown c (.mapreduce false) floatData chunks (codeKeys codes) vals = specResult s.kernel R codes vals n :=
+  Flox.mapreduce_sparse_eq_spec_flox R s c n floatData chunks codes vals hR heng hn hknown hshape hcodes hlen
+    H_dropped H_minmax hsum hcombine
+
+/-- **`reindex=False` map-reduce = eager** (`chunks'` of the eager call is ignored by the model).  The eager side needs
+    `H_absent` and `H_allnan` (see C01). -/
+theorem mapreduce_sparse_eq_eager (R : Resolved) (s : Shape) (c : Call) (n : Nat) (floatData : Bool)
+    (chunks chunks' : List Nat) (codes : List Int) (vals : List Val)
+    (hR : c.R = R) (heng : c.eng = .npg) (hn : c.ngroups = n) (hknown : c.knownLabels = true)
+    (hshape : R.shape? = some s) (hcodes : CodesOK codes n) (hlen : codes.length = vals.length)
+    (H_absent : ∀ g : Nat, g < n → HAbsent R (members (Int.ofNat g) codes vals))
+    (H_allnan : HAllNaN R s) (H_dropped : HDropped R n codes vals) (H_minmax : HMinMax R s)
+    (hsum : chunks.sum = codes.length)
+    (hcombine : useGroupedCombine c floatData = false) :
+    runKnown c (.mapreduce false) floatData chunks (codeKeys codes) vals
+      = runKnown c .eager floatData chunks' (codeKeys codes) vals :=
+  Flox.mapreduce_sparse_eq_eager R s c n floatData chunks chunks' codes vals hR heng hn hknown hshape hcodes hlen
+    H_absent H_allnan H_dropped H_minmax hsum hcombine
+
+/-- **The reindex mode is irrelevant**: `reindex=False` and `reindex=True` map-reduce (possibly with different
+    chunkings, `split_every`, `sort`) return the same result. -/
+theorem mapreduce_sparse_eq_dense (R : Resolved) (s : Shape) (c c' : Call) (n : Nat) (floatData : Bool)
+    (chunks chunks' : List Nat) (codes : List Int) (vals : List Val)
+    (hR : c.R = R) (heng : c.eng = .npg) (hn : c.ngroups = n) (hknown : c.knownLabels = true)
+    (hR' : c'.R = R) (heng' : c'.eng = .npg) (hn' : c'.ngroups = n) (hknown' : c'.knownLabels = true)
+    (hshape : R.shape? = some s) (hcodes : CodesOK codes n) (hlen : codes.length = vals.length)
+    (H_absent : ∀ g : Nat, g < n → HAbsent R (members (Int.ofNat g) codes vals))
+    (H_dropped : HDropped R n codes vals) (H_minmax : HMinMax R s)
+    (hsum : chunks.sum = codes.length)
+    (hchunks' : chunks' ≠ []) (hsum' : chunks'.sum = codes.length)
+    (hcombine : useGroupedCombine c floatData = false) (hcombine' : useGroupedCombine c' floatData = false) :
+    runKnown c (.mapreduce false) floatData chunks (codeKeys codes) vals
+      = runKnown c' (.mapreduce true) floatData chunks' (codeKeys codes) vals :=
+  Flox.mapreduce_sparse_eq_dense R s c c' n floatData chunks chunks' codes vals hR heng hn hknown hR' heng' hn'
+    hknown' hshape hcodes hlen H_absent H_dropped H_minmax hsum hchunks' hsum' hcombine hcombine'
+
+/-! ## §3 `method="cohorts"` -/
+
+/-- **Cohorts = specification, for every SOUND cohort structure.**  `cs` lists, per cohort, the block indices and the
+    labels.  `CohortsSound chunks codes n cs` says: (i) cohort labels are requested labels `0..n-1`; (ii) every
+    requested label that occurs is in some cohort; every cohort has a block; (iii) block indices are valid and a
+    cohort's block list contains EVERY block holding a member of one of its labels; (iv) block lists are strictly
+    ascending.  Nothing else is assumed about how `find_group_cohorts` built `cs` (labels may repeat across cohorts,
+    cohorts may share blocks, any dict order).  Each of (i)–(iv) is necessary: `E2E.labels_ok_counterexample`,
+    `E2E.covered_counterexample`, `E2E.blocks_ne_counterexample`, `E2E.blocks_cover_counterexample`,
+    `E2E.blocks_asc_counterexample_dup`, `E2E.blocks_asc_counterexample_order`.
+
+    Narrower than the property:
+    * `H_absent` for cohort labels only (a cohort label without members and without count mask keeps the finalized
+      intermediate fill: `E2E.H_absent_counterexample_cohorts`);
+    * `H_fill = HCohortFill c R n cs`: requested labels that are in NO cohort are filled by the final reindex of
+      `groupby_reduce` with its `fill_value` ARGUMENT `c.fillArg`, not with the aggregation's fill `R.userFill`; the
+      two must agree if such a label exists, and a fill must exist if no cohort has a label.  This is a
+      method-dependent behaviour of the library: `H_cohortfill_counterexample`. -/
+theorem cohorts_eq_spec (R : Resolved) (s : Shape) (c : Call) (n : Nat) (floatData : Bool)
+    (chunks : List Nat) (codes : List Int) (vals : List Val) (cs : List (List Nat × List Rat))
+    (hR : c.R = R) (heng : c.eng = .npg) (hn : c.ngroups = n) (hknown : c.knownLabels = true)
+    (hshape : R.shape? = some s) (hlen : codes.length = vals.length)
+    (hsound : CohortsSound chunks codes n cs)
+    (H_absent : ∀ co ∈ cs, ∀ g : Nat, ((g : Nat) : Rat) ∈ co.2 → HAbsent R (members (Int.ofNat g) codes vals))
+    (H_minmax : HMinMax R s)
+    (H_fill : HCohortFill c R n cs)
+    (hsum : chunks.sum = codes.length)
+    (hcombine : useGroupedCombine c floatData = false) :
+    runKnown c (.cohorts cs) floatData chunks (codeKeys codes) vals = specResult s.kernel R codes vals n :=
+  Flox.cohorts_eq_spec R s c n floatData chunks codes vals cs hR heng hn hknown hshape hlen hsound H_absent H_minmax
+    H_fill hsum hcombine
+
+/-- the same with flox's own engine -/
+theorem cohorts_eq_spec_flox (R : Resolved) (s : Shape) (c : Call) (n : Nat) (floatData : Bool)
+    (chunks : List Nat) (codes : List Int) (vals : List Val) (cs : List (List Nat × List Rat))
+    (hR : c.R = R) (heng : c.eng = .flox) (hn : c.ngroups = n) (hknown : c.knownLabels = true)
+    (hshape : R.shape? = some s) (hlen : codes.length = vals.length)
+    (hsound : CohortsSound chunks codes n cs)
+    (H_absent : ∀ co ∈ cs, ∀ g : Nat, ((g : Nat) : Rat) ∈ co.2 → HAbsent R (members (Int.ofNat g) codes vals))
+    (H_minmax : HMinMax R s)
+    (H_fill : HCohortFill c R n cs)
+    (hsum : chunks.sum = codes.length)
+    (hcombine : useGroupedCombine c floatData = false) :
+    runKnown c (.cohorts cs) floatData chunks (codeKeys codes) vals = specResult s.kernel R codes vals n :=
+  Flox.cohorts_eq_spec_flox R s c n floatData chunks codes vals cs hR heng hn hknown hshape hlen hsound H_absent
+    H_minmax H_fill hsum hcombine
+
+/-- **Cohorts = eager.** -/
+theorem cohorts_eq_eager (R : Resolved) (s : Shape) (c : Call) (n : Nat) (floatData : Bool)
+    (chunks chunks' : List Nat) (codes : List Int) (vals : List Val) (cs : List (List Nat × List Rat))
+    (hR : c.R = R) (heng : c.eng = .npg) (hn : c.ngroups = n) (hknown : c.knownLabels = true)
+    (hshape : R.shape? = some s) (hcodes : CodesOK codes n) (hlen : codes.length = vals.length)
+    (hsound : CohortsSound chunks codes n cs)
+    (H_absent : ∀ g : Nat, g < n → HAbsent R (members (Int.ofNat g) codes vals))
+    (H_allnan : HAllNaN R s) (H_minmax : HMinMax R s) (H_fill : HCohortFill c R n cs)
+    (hsum : chunks.sum = codes.length)
+    (hcombine : useGroupedCombine c floatData = false) :
+    runKnown c (.cohorts cs) floatData chunks (codeKeys codes) vals
+      = runKnown c .eager floatData chunks' (codeKeys codes) vals :=
+  Flox.cohorts_eq_eager R s c n floatData chunks chunks' codes vals cs hR heng hn hknown hshape hcodes hlen hsound
+    H_absent H_allnan H_minmax H_fill hsum hcombine
+
+/-- **The cohort structure is irrelevant**: two calls that differ in the (sound) cohort structure, the chunking,
+    `split_every` and `sort` return the same result. -/
+theorem cohorts_structure_irrelevant (R : Resolved) (s : Shape) (c₁ c₂ : Call) (n : Nat) (floatData : Bool)
+    (chunks₁ chunks₂ : List Nat) (codes : List Int) (vals : List Val) (cs₁ cs₂ : List (List Nat × List Rat))
+    (hR₁ : c₁.R = R) (heng₁ : c₁.eng = .npg) (hn₁ : c₁.ngroups = n) (hknown₁ : c₁.knownLabels = true)
+    (hR₂ : c₂.R = R) (heng₂ : c₂.eng = .npg) (hn₂ : c₂.ngroups = n) (hknown₂ : c₂.knownLabels = true)
+    (hshape : R.shape? = some s) (hlen : codes.length = vals.length)
+    (hsound₁ : CohortsSound chunks₁ codes n cs₁) (hsound₂ : CohortsSound chunks₂ codes n cs₂)
+    (H_absent₁ : ∀ co ∈ cs₁, ∀ g : Nat, ((g : Nat) : Rat) ∈ co.2 → HAbsent R (members (Int.ofNat g) codes vals))
+    (H_absent₂ : ∀ co ∈ cs₂, ∀ g : Nat, ((g : Nat) : Rat) ∈ co.2 → HAbsent R (members (Int.ofNat g) codes vals))
+    (H_minmax : HMinMax R s)
+    (H_fill₁ : HCohortFill c₁ R n cs₁) (H_fill₂ : HCohortFill c₂ R n cs₂)
+    (hsum₁ : chunks₁.sum = codes.length) (hsum₂ : chunks₂.sum = codes.length)
+    (hcombine₁ : useGroupedCombine c₁ floatData = false) (hcombine₂ : useGroupedCombine c₂ floatData = false) :
+    runKnown c₁ (.cohorts cs₁) floatData chunks₁ (codeKeys codes) vals
+      = runKnown c₂ (.cohorts cs₂) floatData chunks₂ (codeKeys codes) vals :=
+  Flox.cohorts_structure_irrelevant R s c₁ c₂ n floatData chunks₁ chunks₂ codes vals cs₁ cs₂ hR₁ heng₁ hn₁ hknown₁
+    hR₂ heng₂ hn₂ hknown₂ hshape hlen hsound₁ hsound₂ H_absent₁ H_absent₂ H_minmax H_fill₁ H_fill₂ hsum₁ hsum₂
+    hcombine₁ hcombine₂
+
+/-! ## §4 `method="blockwise"` -/
+
+/-- **Blockwise = specification.**  `BW.EachLabelInOneBlock chunks codes` is the documented precondition of
+    `method="blockwise"`: no label `≥ 0` occurs in two blocks of the chunking.  Then reducing every (non-empty) block
+    on its own, concatenating, sorting by label when `sort=True`, dropping the repeated `-1` group and reindexing to
+    the expected groups gives `Spec.reduce`; for `sort = true` and `sort = false`.
+
+    Narrower than the property:
+    * `hpos`: no empty block (`BWEx.empty_block_counterexample`: the model misaligns labels and values);
+    * `hfill`: the `fill_value` argument equals the aggregation's fill (`BWEx.fillArg_counterexample`);
+    * `H_allnan` as for the eager path (each block is reduced by the eager kernels);
+    * `BW.HDropped R segs`: without a fill, the dropped elements of a block must not trip the count mask
+      (`BWEx.H_dropped_counterexample`, same defect as in §2);
+    * `BW.HSomeLabel R codes n`: without a fill and with a requested label, some element carries a label
+      (`BWEx.H_somelabel_counterexample`: the reindex of an EMPTY result fills with NaN instead of raising).
+    The precondition itself is necessary: `each_label_in_one_block_counterexample`. -/
+theorem blockwise_eq_spec (R : Resolved) (s : Shape) (c : Call) (n : Nat) (floatData : Bool)
+    (chunks : List Nat) (codes : List Int) (vals : List Val)
+    (hR : c.R = R) (heng : c.eng = .npg) (hn : c.ngroups = n) (hknown : c.knownLabels = true)
+    (hshape : R.shape? = some s) (hcodes : CodesOK codes n) (hlen : codes.length = vals.length)
+    (hsum : chunks.sum = codes.length) (hpos : ∀ k ∈ chunks, 0 < k)
+    (hone : BW.EachLabelInOneBlock chunks codes)
+    (hfill : c.fillArg = R.userFill) (H_allnan : HAllNaN R s)
+    (H_dropped : BW.HDropped R (segsOf chunks codes vals)) (H_somelabel : BW.HSomeLabel R codes n) :
+    runKnown c (.blockwise false) floatData chunks (codeKeys codes) vals = specResult s.kernel R codes vals n :=
+  BW.blockwise_eq_spec R s c n floatData chunks codes vals hR heng hn hknown hshape hcodes hlen hsum hpos hone hfill
+    H_allnan H_dropped H_somelabel
+
+/-- the same with flox's own engine (`HFloxMean R s`: for the `mean` shapes the NumPy fill must be NaN, as in
+    `C01.eager_eq_spec_flox`) -/
+theorem blockwise_eq_spec_flox (R : Resolved) (s : Shape) (c : Call) (n : Nat) (floatData : Bool)
+    (chunks : List Nat) (codes : List Int) (vals : List Val)
+    (hR : c.R = R) (heng : c.eng = .flox) (hn : c.ngroups = n) (hknown : c.knownLabels = true)
+    (hshape : R.shape? = some s) (hmean : HFloxMean R s)
+    (hcodes : CodesOK codes n) (hlen : codes.length = vals.length)
+    (hsum : chunks.sum = codes.length) (hpos : ∀ k ∈ chunks, 0 < k)
+    (hone : BW.EachLabelInOneBlock chunks codes)
+    (hfill : c.fillArg = R.userFill) (H_allnan : HAllNaN R s)
+    (H_dropped : BW.HDropped R (segsOf chunks codes vals)) (H_somelabel : BW.HSomeLabel R codes n) :
+    runKnown c (.blockwise false) floatData chunks (codeKeys codes) vals = specResult s.kernel R codes vals n :=
+  BW.blockwise_eq_spec_flox R s c n floatData chunks codes vals hR heng hn hknown hshape hmean hcodes hlen hsum hpos
+    hone hfill H_allnan H_dropped H_somelabel
+
+/-- **Blockwise = eager** -/
+theorem blockwise_eq_eager (R : Resolved) (s : Shape) (c : Call) (n : Nat) (floatData : Bool)
+    (chunks chunks' : List Nat) (codes : List Int) (vals : List Val)
+    (hR : c.R = R) (heng : c.eng = .npg) (hn : c.ngroups = n) (hknown : c.knownLabels = true)
+    (hshape : R.shape? = some s) (hcodes : CodesOK codes n) (hlen : codes.length = vals.length)
+    (hsum : chunks.sum = codes.length) (hpos : ∀ k ∈ chunks, 0 < k)
+    (hone : BW.EachLabelInOneBlock chunks codes)
+    (hfill : c.fillArg = R.userFill) (H_allnan : HAllNaN R s)
+    (H_dropped : BW.HDropped R (segsOf chunks codes vals)) (H_somelabel : BW.HSomeLabel R codes n)
+    (H_absent : ∀ g : Nat, g < n → HAbsent R (members (Int.ofNat g) codes vals)) :
+    runKnown c (.blockwise false) floatData chunks (codeKeys codes) vals
+      = runKnown c .eager floatData chunks' (codeKeys codes) vals :=
+  BW.blockwise_eq_eager R s c n floatData chunks chunks' codes vals hR heng hn hknown hshape hcodes hlen hsum hpos
+    hone hfill H_allnan H_dropped H_somelabel H_absent
+
+/-- **The chunking (among those satisfying the precondition) and `sort` are irrelevant.** -/
+theorem blockwise_chunking_sort_irrelevant (R : Resolved) (s : Shape) (c₁ c₂ : Call) (n : Nat) (floatData : Bool)
+    (chunks₁ chunks₂ : List Nat) (codes : List Int) (vals : List Val)
+    (hR₁ : c₁.R = R) (heng₁ : c₁.eng = .npg) (hn₁ : c₁.ngroups = n) (hknown₁ : c₁.knownLabels = true)
+    (hR₂ : c₂.R = R) (heng₂ : c₂.eng = .npg) (hn₂ : c₂.ngroups = n) (hknown₂ : c₂.knownLabels = true)
+    (hshape : R.shape? = some s) (hcodes : CodesOK codes n) (hlen : codes.length = vals.length)
+    (hsum₁ : chunks₁.sum = codes.length) (hpos₁ : ∀ k ∈ chunks₁, 0 < k)
+    (hone₁ : BW.EachLabelInOneBlock chunks₁ codes)
+    (hsum₂ : chunks₂.sum = codes.length) (hpos₂ : ∀ k ∈ chunks₂, 0 < k)
+    (hone₂ : BW.EachLabelInOneBlock chunks₂ codes)
+    (hfill₁ : c₁.fillArg = R.userFill) (hfill₂ : c₂.fillArg = R.userFill) (H_allnan : HAllNaN R s)
+    (H_dropped₁ : BW.HDropped R (segsOf chunks₁ codes vals)) (H_dropped₂ : BW.HDropped R (segsOf chunks₂ codes vals))
+    (H_somelabel : BW.HSomeLabel R codes n) :
+    runKnown c₁ (.blockwise false) floatData chunks₁ (codeKeys codes) vals
+      = runKnown c₂ (.blockwise false) floatData chunks₂ (codeKeys codes) vals :=
+  BW.blockwise_chunking_sort_irrelevant R s c₁ c₂ n floatData chunks₁ chunks₂ codes vals hR₁ heng₁ hn₁ hknown₁ hR₂
+    heng₂ hn₂ hknown₂ hshape hcodes hlen hsum₁ hpos₁ hone₁ hsum₂ hpos₂ hone₂ hfill₁ hfill₂ H_allnan H_dropped₁
+    H_dropped₂ H_somelabel
+
+/-- **Blockwise with reindexing at the block stage, one block = eager**, for EVERY blueprint (arg-reductions and
+    blueprints without a `Shape` included), engine and input – no hypothesis besides "the single block of size `m`
+    covers the data".  (With more than one block the model returns `ValueError`: `BWEx.blockwise_true_two_blocks`.) -/
+theorem blockwise_single_eq_eager (c : Call) (floatData : Bool) (m : Nat) (chunks' : List Nat) (keys : List Key)
+    (vals : List Val) (hk : keys.length ≤ m) (hv : vals.length ≤ m) :
+    runKnown c (.blockwise true) floatData [m] keys vals = runKnown c .eager floatData chunks' keys vals :=
+  BW.blockwise_single_eq_eager c floatData m chunks' keys vals hk hv
+
+/-! ## §5 map-reduce with `_grouped_combine` -/
+
+/-- **Grouped combine = specification.**  `useGroupedCombine c floatData = true` selects `_grouped_combine`
+    (concatenate the blocks' groups and intermediates in block order, run `chunk_reduce` with the combine kernels) –
+    the plan flox uses for `nanfirst` / `nanlast` / `first` / `last` on non-float data, for arg-reductions and for
+    labels unknown at graph-construction time.  For blueprints with a `Shape`, every chunking and every `split_every`
+    the result is `Spec.reduce`.  No `H_absent`.  Narrower than the property: `Grp.HDropped R codes vals` (no fill,
+    count mask on, dropped elements present ⇒ they have `≥ min_count` valid values; `Grp.GEx.H_dropped_counterexample`),
+    `codes ≠ []` (`Grp.GEx.codes_ne_nil_counterexample`), `chunks ≠ []`, `H_minmax`. -/
+theorem mapreduce_grouped_eq_spec (R : Resolved) (s : Shape) (c : Call) (n : Nat) (floatData : Bool)
+    (chunks : List Nat) (codes : List Int) (vals : List Val)
+    (hR : c.R = R) (heng : c.eng = .npg) (hn : c.ngroups = n)
+    (hshape : R.shape? = some s) (hcodes : CodesOK codes n) (hlen : codes.length = vals.length)
+    (hne : codes ≠ [])
+    (H_minmax : HMinMax R s) (H_dropped : Grp.HDropped R codes vals)
+    (hchunks : chunks ≠ []) (hsum : chunks.sum = codes.length)
+    (hcombine : useGroupedCombine c floatData = true) :
+    runKnown c (.mapreduce false) floatData chunks (codeKeys codes) vals = specResult s.kernel R codes vals n :=
+  Grp.mapreduce_grouped_eq_spec R s c n floatData chunks codes vals hR heng hn hshape hcodes hlen hne H_minmax
+    H_dropped hchunks hsum hcombine
+
+/-- **Grouped combine = eager** -/
+theorem mapreduce_grouped_eq_eager (R : Resolved) (s : Shape) (c : Call) (n : Nat) (floatData : Bool)
+    (chunks chunks' : List Nat) (codes : List Int) (vals : List Val)
+    (hR : c.R = R) (heng : c.eng = .npg) (hn : c.ngroups = n) (hknown : c.knownLabels = true)
+    (hshape : R.shape? = some s) (hcodes : CodesOK codes n) (hlen : codes.length = vals.length)
+    (hne : codes ≠ [])
+    (H_absent : ∀ g : Nat, g < n → HAbsent R (members (Int.ofNat g) codes vals))
+    (H_allnan : HAllNaN R s) (H_minmax : HMinMax R s) (H_dropped : Grp.HDropped R codes vals)
+    (hchunks : chunks ≠ []) (hsum : chunks.sum = codes.length)
+    (hcombine : useGroupedCombine c floatData = true) :
+    runKnown c (.mapreduce false) floatData chunks (codeKeys codes) vals
+      = runKnown c .eager floatData chunks' (codeKeys codes) vals :=
+  Grp.mapreduce_grouped_eq_eager R s c n floatData chunks chunks' codes vals hR heng hn hknown hshape hcodes hlen hne
+    H_absent H_allnan H_minmax H_dropped hchunks hsum hcombine
+
+/-! ## §6 necessity of the hypotheses (the most informative counterexamples, restated) -/
+
+/-- **`H_dropped` is necessary – a defect of the modelled library** (reproduced with the real flox:
+    `groupby_reduce(dask [1., nan], by=[0, 5], func="nanmean", expected_groups=[0], min_count=1, fill_value=None,
+    method="map-reduce", reindex=False)` raises `ValueError: Filling is required but fill_value is None`, while
+    `reindex=True` and the eager path return `[1.]`).  `E2E.RnanmeanNoFill` is `nanmean`, `min_count=1`, no fill;
+    the data are `[1, NaN]` with codes `[0, -1]`, one requested label. -/
+theorem H_dropped_counterexample :
+    E2E.RnanmeanNoFill.shape? = some (.mean true) ∧ HMinMax E2E.RnanmeanNoFill (.mean true)
+    ∧ CodesOK [0, -1] 1 ∧ ¬ HDropped E2E.RnanmeanNoFill 1 [0, -1] [Val.fin 1, Val.nan]
+    ∧ runKnown (E2E.mkCall E2E.RnanmeanNoFill .npg 1 2) (.mapreduce false) true [2] (codeKeys [0, -1])
+        [Val.fin 1, Val.nan] = .error "ValueError"
+    ∧ specResult .nanmean E2E.RnanmeanNoFill [0, -1] [Val.fin 1, Val.nan] 1 = .ok [Val.fin 1]
+    ∧ runKnown (E2E.mkCall E2E.RnanmeanNoFill .npg 1 2) (.mapreduce true) true [2] (codeKeys [0, -1])
+        [Val.fin 1, Val.nan] = .ok [Val.fin 1]
+    ∧ runKnown (E2E.mkCall E2E.RnanmeanNoFill .npg 1 2) .eager true [2] (codeKeys [0, -1]) [Val.fin 1, Val.nan]
+        = .ok [Val.fin 1] :=
+  E2E.H_dropped_counterexample
+
+/-- **`H_absent` separates the reindex modes**: `sum`, no `min_count`, `fill_value=7`, label 1 requested but absent.
+    Only `reindex=False` returns what the specification demands (`[1, 7]`); `reindex=True` leaves the intermediate
+    fill 0 and the eager path the NumPy fill NaN in the absent slot (open finding F9). -/
+theorem sparse_vs_dense_absent :
+    ¬ HAbsent { E2E.Rsum with userFill := some (Val.fin 7) } (members 1 [0] [Val.fin 1])
+    ∧ specResult .sum { E2E.Rsum with userFill := some (Val.fin 7) } [0] [Val.fin 1] 2 = .ok [Val.fin 1, Val.fin 7]
+    ∧ runKnown (E2E.mkCall { E2E.Rsum with userFill := some (Val.fin 7) } .npg 2 2) (.mapreduce false) true [1]
+        (codeKeys [0]) [Val.fin 1] = .ok [Val.fin 1, Val.fin 7]
+    ∧ runKnown (E2E.mkCall { E2E.Rsum with userFill := some (Val.fin 7) } .npg 2 2) (.mapreduce true) true [1]
+        (codeKeys [0]) [Val.fin 1] = .ok [Val.fin 1, Val.fin 0]
+    ∧ runKnown (E2E.mkCall { E2E.Rsum with userFill := some (Val.fin 7) } .npg 2 2) .eager true [1] (codeKeys [0])
+        [Val.fin 1] = .ok [Val.fin 1, Val.nan] :=
+  E2E.sparse_vs_dense_absent
+
+/-- **`HCohortFill` is necessary – a method-dependent behaviour of the modelled library** (reproduced with the real
+    flox: `groupby_reduce(dask [1,2,3,4], by=[0,0,2,2], func="nanmax", expected_groups=[0,1,2], fill_value=None,
+    method="cohorts")` raises `ValueError: Filling is required. fill_value cannot be None.`, while
+    `method="map-reduce"` and the eager path return `[2, nan, 4]`).  `E2E.cNanmaxNoArg` is the `nanmax` call whose
+    `fill_value` argument is `None` while the aggregation's fill is NaN. -/
+theorem H_cohortfill_counterexample :
+    E2E.Rnanmax.shape? = some (.simple .nanmax .nanmax Val.ninf)
+    ∧ cohortsSoundB [1] [0] 2 [([0], [0])] = true
+    ∧ E2E.cNanmaxNoArg.fillArg ≠ E2E.Rnanmax.userFill
+    ∧ runKnown E2E.cNanmaxNoArg (.cohorts [([0], [0])]) true [1] (codeKeys [0]) [Val.fin 1] = .error "ValueError"
+    ∧ specResult .nanmax E2E.Rnanmax [0] [Val.fin 1] 2 = .ok [Val.fin 1, Val.nan]
+    ∧ runKnown E2E.cNanmaxNoArg (.mapreduce false) true [1] (codeKeys [0]) [Val.fin 1] = .ok [Val.fin 1, Val.nan]
+    ∧ runKnown E2E.cNanmaxNoArg (.mapreduce true) true [1] (codeKeys [0]) [Val.fin 1] = .ok [Val.fin 1, Val.nan]
+    ∧ runKnown E2E.cNanmaxNoArg .eager true [1] (codeKeys [0]) [Val.fin 1] = .ok [Val.fin 1, Val.nan] :=
+  E2E.H_cohortfill_counterexample
+
+/-- **The precondition of `method="blockwise"` is necessary.**  Label 0 occurs in two blocks: the model's final
+    reindex silently takes the FIRST block's partial result (1 instead of 6).  (The real library now raises
+    `ValueError` for a label occurring in two blocks: a known divergence of the model, outside the documented
+    precondition.) -/
+theorem each_label_in_one_block_counterexample :
+    ¬ BW.EachLabelInOneBlock [2, 1] [0, 1, 0]
+    ∧ runKnown (BWEx.mk E2E.Rsum .npg false 2) (.blockwise false) true [2, 1] (codeKeys [0, 1, 0])
+        [Val.fin 1, Val.fin 2, Val.fin 5] = .ok [Val.fin 1, Val.fin 2]
+    ∧ specResult .sum E2E.Rsum [0, 1, 0] [Val.fin 1, Val.fin 2, Val.fin 5] 2 = .ok [Val.fin 6, Val.fin 2] :=
+  BWEx.each_label_in_one_block_counterexample
+
+/-! ### non-vacuity of §2–§5 (every hypothesis is satisfiable on data with a dropped element, an absent requested label
+    and an all-NaN label; the common value is a real one) -/
+
+open E2E in
+/-- `reindex=False`, 4 blocks, binary tree -/
+example : runKnown (mkCall Rnanmean .npg 4 2) (.mapreduce false) true [2, 1, 3, 2] (codeKeys codes8) vals8
+      = specResult .nanmean Rnanmean codes8 vals8 4
+    ∧ specResult .nanmean Rnanmean codes8 vals8 4 = .ok [Val.fin (3/2), Val.fin (-1), Val.fin 4, Val.fin (-1)] :=
+  ⟨mapreduce_sparse_eq_spec Rnanmean (.mean true) (mkCall Rnanmean .npg 4 2) 4 true [2, 1, 3, 2] codes8 vals8
+      rfl rfl rfl rfl (by decide +kernel) codes8_ok rfl (by decide +kernel) (by decide +kernel) rfl
+      (by decide +kernel), by decide +kernel⟩
+
+open E2E in
+/-- cohorts: two cohorts sharing a block, dict order not sorted by label -/
+example : runKnown (mkCall Rnanmean .npg 4 2) (.cohorts cs8a) true [2, 1, 3, 2] (codeKeys codes8) vals8
+    = specResult .nanmean Rnanmean codes8 vals8 4 :=
+  cohorts_eq_spec Rnanmean (.mean true) (mkCall Rnanmean .npg 4 2) 4 true [2, 1, 3, 2] codes8 vals8 cs8a
+    rfl rfl rfl rfl (by decide +kernel) rfl cs8a_sound (fun _ _ _ _ => Or.inl (by decide))
+    (by decide +kernel) ⟨fun _ _ _ => rfl, by decide +kernel⟩ rfl (by decide +kernel)
+
+open E2E BWEx in
+/-- blockwise: three blocks, labels `0 | 2 | 3`, label 1 absent, dropped elements in two blocks, group 3 all-NaN -/
+example : runKnown (mk Rnanmean .npg true 4) (.blockwise false) true chunksA (codeKeys codesA) valsA
+      = specResult .nanmean Rnanmean codesA valsA 4
+    ∧ specResult .nanmean Rnanmean codesA valsA 4 = .ok [Val.fin 2, Val.fin (-1), Val.fin 5, Val.fin (-1)] :=
+  ⟨blockwise_eq_spec Rnanmean (.mean true) (mk Rnanmean .npg true 4) 4 true chunksA codesA valsA rfl rfl rfl rfl
+      (by decide +kernel) (by decide +kernel) rfl rfl (by decide) (by decide +kernel) rfl (by decide +kernel)
+      (by decide +kernel) (by decide +kernel), by decide +kernel⟩
+
+open E2E Grp.GEx in
+/-- grouped combine: `nanlast` on non-float data, 4 blocks, binary tree -/
+example : runKnown (mkCall Rnanlast .npg 4 2) (.mapreduce false) false [2, 1, 3, 2] (codeKeys codes8) vals8
+      = specResult .nanlast Rnanlast codes8 vals8 4
+    ∧ specResult .nanlast Rnanlast codes8 vals8 4 = .ok [Val.fin 2, Val.fin (-7), Val.fin 5, Val.nan] :=
+  ⟨mapreduce_grouped_eq_spec Rnanlast (.simple .nanlast .nanlast Val.nan) (mkCall Rnanlast .npg 4 2) 4 false
+      [2, 1, 3, 2] codes8 vals8 rfl rfl rfl (by decide +kernel) codes8_ok rfl (by decide) (by decide +kernel)
+      (by decide +kernel) (by decide) rfl (by decide +kernel), by decide +kernel⟩
 
 end Flox.C02
